@@ -177,7 +177,7 @@ def rejection_reasons(model, pairs):
     for (k1, v1), (k2, v2) in it.combinations(pairs, 2):
         if own(k1) is not None and own(k1) == own(k2):
             reasons.add("DuplicateKeys")
-        if own(v1) is not None and own(v1) == own(v2):
+        if (own(v1) is not None and own(v1) == own(v2)) or v1 == v2:
             reasons.add("DuplicateValues")
     names = {}
     for k, v in pairs:
@@ -274,6 +274,11 @@ def check(base_idx, pairs, twice=False, ctx=None):
             transitive = bool(set(remapping) & set(remapping.values()))
             fails.append((f"prefix-lost/{'transitive' if transitive else 'plain'}-remapping", f"{w}: prefixes {sorted(lost)} were known before and are unknown afterwards"))
         targets = [v for _, v in pairs]
+        for (k1, v1), (k2, v2) in it.combinations(pairs, 2):
+            r1, r2 = before.owner(k1), before.owner(k2)
+            if v1 == v2 and r1 is not None and r2 is not None and r1.uri_prefix != r2.uri_prefix and before.owner(v1) is None:
+                # two applicable pairs onto one unused name cannot both be honoured: the only conforming outcome is the documented rejection
+                fails.append(("accepted-although-two-applicable-pairs-compete-for-one-new-name", f"{w}: {k1!r}->{v1!r} and {k2!r}->{v2!r} are both applicable and {v1!r} was unused; no DuplicateValues was raised and only one record can be named {v1!r}"))
         for k, v in pairs:
             r = before.owner(k)
             if r is None or before.owner(v) is not None:
